@@ -230,6 +230,10 @@ class Symb:
         return self.conv(args[0]) - self.conv(args[1])
       if d in ('jax.numpy.divide', 'jax.numpy.true_divide') and len(args) == 2:
         return self.conv(args[0]) / self.conv(args[1])
+      if d in ('jax.numpy.zeros_like', 'numpy.zeros_like') and len(args) == 1:
+        return sp.Integer(0)          # as a value: zero (shape is not part of the normal form)
+      if d in ('jax.numpy.ones_like', 'numpy.ones_like') and len(args) == 1:
+        return sp.Integer(1)
       if d in ('jax.numpy.reshape', 'numpy.reshape') and len(args) == 2:
         return self.f('reshape', self.conv(args[0]), self._shape_arg([args[1]]))
       if d in ('jax.numpy.expand_dims', 'numpy.expand_dims') and len(args) == 2 and args[1].op == 'const' and isinstance(cval(args[1]), int) and cval(args[1]) >= 0:
